@@ -1,0 +1,78 @@
+// Copyright ©2014 The bíogo Authors. All rights reserved.
+// Use of this source code is governed by a BSD-style
+// license that can be found in the LICENSE file.
+
+//go:build verif
+
+// Contracts for the hvc verifier (see /verif/DESIGN.md). This file contains
+// comments only; it adds nothing to the package.
+package internal
+
+// The binning scheme of SAM section 5.3, stated semantically: the bins form
+// six levels; level l has 8^l bins numbered from (8^l-1)/7, each covering
+// 2^(29-3l) positions. The bin of an interval is the deepest bin that
+// contains it; the bins overlapping an interval are all bins whose span
+// meets it.
+//
+//@ spec func lvlOff(l int) uint32 = ite(l == 0, 0, ite(l == 1, 1, ite(l == 2, 9, ite(l == 3, 73, ite(l == 4, 585, 4681)))))
+//@ spec func lvlShift(l int) int = 29 - 3*l
+//@ spec func binLevel(k uint32) int = ite(k < 1, 0, ite(k < 9, 1, ite(k < 73, 2, ite(k < 585, 3, ite(k < 4681, 4, 5)))))
+//@ spec func binBeg(k uint32) int = int(k - lvlOff(binLevel(k))) << uint32(lvlShift(binLevel(k)))
+//@ spec func binEnd(k uint32) int = binBeg(k) + (1 << uint32(lvlShift(binLevel(k))))
+//@ spec func binContains(k uint32, beg int, end int) bool = binBeg(k) <= beg && end <= binEnd(k)
+//@ spec func binOverlaps(k uint32, beg int, end int) bool = binBeg(k) < end && beg < binEnd(k)
+//@ spec func validIv(beg int, end int) bool = 0 <= beg && beg < end && end <= 536870912
+//@ spec func maxBin() uint32 = 37448
+
+//@ func BinFor
+//@   mode bv
+//@   props C16, C04
+//@   requires validIv(beg, end)
+//@   ensures[C16,C04] @inrange result <= maxBin()
+//@   ensures[C16,C04] @contains binContains(result, beg, end)
+//@   ensures[C16,C04] @deepest forall k uint32 :: k <= maxBin() && binContains(k, beg, end) ==> binLevel(k) <= binLevel(result)
+
+// OverlappingBinsFor: the returned list is exactly the set of bins whose span
+// meets [beg,end). The ghost set S mirrors the elements of list (idx gives a
+// position for each member), so both directions are stated without nested
+// quantifier alternation. The outer loop runs over a five element literal
+// whose contents are read from the code; both loops carry invariants.
+//@ spec func lvlOfShift(s uint32) int = (29 - int(s)) / 3
+//@ func OverlappingBinsFor
+//@   mode bv
+//@   props C16, C04
+//@   terminates
+//@   requires validIv(beg, end)
+//@   ghost S map[uint32]bool
+//@   ghost idx map[uint32]int
+//@   at entry ghost S[0] = true; idx[0] = 0
+//@   at append#0 ghost S[elem0] = true; idx[elem0] = len(dst)
+//@   loop 0 invariant @idx 0 - 1 <= rangeindex && rangeindex <= 4 && fresh(list)
+//@   loop 0 invariant @witness forall q uint32 :: S[q] ==> (0 <= idx[q] && idx[q] < len(list) && list[idx[q]] == q)
+//@   loop 0 invariant @members forall j in 0..len(list) :: S[list[j]]
+//@   loop 0 invariant @sound forall q uint32 :: S[q] ==> (q <= maxBin() && binOverlaps(q, beg, old(end)))
+//@   loop 0 invariant @complete forall q uint32 :: q <= maxBin() && binOverlaps(q, beg, old(end)) &&
+//@       binLevel(q) <= rangeindex + 1 ==> S[q]
+//@   loop 0 decreases 4 - rangeindex
+//@   loop 1 invariant @lvl 0 - 1 <= rangeindex && rangeindex <= 3 && lvlOfShift(r.shift) == rangeindex + 2 &&
+//@       int(r.shift) == lvlShift(lvlOfShift(r.shift)) && r.offset == lvlOff(lvlOfShift(r.shift))
+//@   loop 1 invariant @krange fresh(list) && r.offset + uint32(beg >> r.shift) <= k && k <= r.offset + uint32(end >> r.shift) + 1
+//@   loop 1 invariant @witness forall q uint32 :: S[q] ==> (0 <= idx[q] && idx[q] < len(list) && list[idx[q]] == q)
+//@   loop 1 invariant @members forall j in 0..len(list) :: S[list[j]]
+//@   loop 1 invariant @sound forall q uint32 :: S[q] ==> (q <= maxBin() && binOverlaps(q, beg, old(end)))
+//@   loop 1 invariant @complete forall q uint32 :: q <= maxBin() && binOverlaps(q, beg, old(end)) &&
+//@       (binLevel(q) < lvlOfShift(r.shift) || (binLevel(q) == lvlOfShift(r.shift) && q < k)) ==> S[q]
+//@   loop 1 decreases int(r.offset + uint32(end >> r.shift) + 1 - k)
+//@   ensures[C16,C04] @onlyoverlapping forall j in 0..len(result) :: result[j] <= maxBin() && binOverlaps(result[j], beg, end)
+//@   ensures[C16,C04] @alloverlapping forall q uint32 :: q <= maxBin() && binOverlaps(q, beg, end) ==>
+//@       exists j in 0..len(result) :: result[j] == q
+
+// The unplaced/unmapped convention: BinFor(-1, 0) is the bin 4680 (SAM: reg2bin(-1, 0)).
+//@ lemma[C16] bv unplacedbin: lvlOff(5) - 1 == 4680
+
+// An interval that overlaps another is seen by every bin that contains the other:
+// the step from "Bin == BinFor(record)" and "list == all overlapping bins" to
+// "the record's bin is in the list of every overlapping query".
+//@ lemma[C16,C04] bv overlapmember: forall k uint32, b1 int, e1 int, b2 int, e2 int ::
+//@     validIv(b1, e1) && validIv(b2, e2) && b1 < e2 && b2 < e1 && k <= maxBin() && binContains(k, b2, e2)
+//@         ==> binOverlaps(k, b1, e1)
